@@ -4,11 +4,14 @@ import (
 	"fmt"
 	"os"
 	"reflect"
+	"runtime"
 	"strconv"
 	"strings"
 	"testing"
 	"unsafe"
 
+	goomy "github.com/tencent/goom/internal/zzverif/c08a/github.com/tencent/goom/zzverifx"
+	goomx "github.com/tencent/goom/zzverifx"
 	"github.com/tencent/goom/internal/zzverif/vh"
 )
 
@@ -29,8 +32,17 @@ func (e *zzErrA) Error() string { return "errA" }
 
 type zzErrB struct{ C int }
 
+// zzBig is larger than any inline buffer a mocker might use (64 bytes) and mixes scalars, a string and a pointer
+type zzBig struct {
+	A [5]int
+	S string
+	P *int
+}
+
 func (e zzErrB) Error() string  { return "errB" }
 func (e zzErrB) String() string { return "errB" }
+
+var zzMiscIface zzStringer
 
 var (
 	zzSl1, zzSl2, zzSl3    = []int{1, 2, 3}, []int{1, 2, 3}, []int{4, 5, 6}
@@ -39,6 +51,8 @@ var (
 	zzCh1, zzCh2, zzCh3    = make(chan int), make(chan int), make(chan int, 1)
 	zzEa1, zzEa2, zzEa3    = zzErrA{1}, zzErrA{1}, zzErrA{3}
 	zzCallbackCalls        int
+	zzI1, zzI2             = 1, 1
+	zzChurn                []interface{}
 	zzTypeNames            = map[reflect.Type]string{}
 	zzIfaceTy              = map[string]bool{"err": true, "any": true, "str": true}
 	zzPkgPath              = "github.com/tencent/goom."
@@ -52,10 +66,23 @@ func zzF3() int { return 3 }
 type zzVar struct {
 	ty     string
 	ptr    interface{}
+	path   string // full "import/path.name" when the variable is not in the root package
 	sym    string
 	direct func() interface{}
 	access func() interface{}
 	assign func(interface{})
+}
+
+const zzXPath = "github.com/tencent/goom/zzverifx."
+
+// zzInitX registers the variables of the other package (initialised data, full import path in the name)
+func zzInitX() {
+	zzVars["xint"] = &zzVar{ty: "int", ptr: goomx.PInt(), path: zzXPath + "zzx_int",
+		direct: func() interface{} { return *goomx.PInt() }, access: func() interface{} { return goomx.GetInt() },
+		assign: func(x interface{}) { goomx.SetInt(x.(int)) }}
+	zzVars["xstring"] = &zzVar{ty: "string", ptr: goomx.PString(), path: zzXPath + "zzx_string",
+		direct: func() interface{} { return *goomx.PString() }, access: func() interface{} { return goomx.GetString() },
+		assign: func(x interface{}) { goomx.SetString(x.(string)) }}
 }
 
 func zzInitTypes() {
@@ -83,6 +110,96 @@ func zzSame(a, b interface{}) bool {
 	return a == b
 }
 
+// ---- heap-built ("fresh") values: rep 10+k.  Built at run time, so the variable (or a mocker's saved origin) is the only
+// reference to their storage; recognised by content, not identity.
+
+func zzFreshString(k int) string {
+	b := make([]byte, 100+k)
+	for i := range b {
+		b[i] = byte('p' + k)
+	}
+	return string(b)
+}
+
+func zzFresh(ty string, k int) (interface{}, bool) {
+	switch ty {
+	case "string":
+		return zzFreshString(k), true
+	case "slice":
+		s := make([]int, 64)
+		for i := range s {
+			s[i] = 7000 + k
+		}
+		return s, true
+	case "map":
+		return map[string]int{"fresh": 7000 + k}, true
+	case "ptr":
+		return &zzS{A: 7000 + k, B: zzFreshString(k)}, true
+	case "struct":
+		return zzS{A: 7000 + k, B: zzFreshString(k)}, true
+	case "perr":
+		return &zzErrA{c: 7000 + k}, true
+	case "big":
+		p := new(int)
+		*p = 7000 + k
+		return zzBig{A: [5]int{7000 + k, 1, 2, 3, 7000 + k}, S: zzFreshString(k), P: p}, true
+	}
+	return nil, false
+}
+
+// zzFreshRep recognises a fresh value by its content; -1 if x is not one
+func zzFreshRep(ty string, x interface{}) int {
+	for k := 0; k < 4; k++ {
+		ok := false
+		switch v := x.(type) {
+		case string:
+			ok = v == zzFreshString(k)
+		case []int:
+			ok = len(v) == 64 && cap(v) == 64
+			for i := 0; ok && i < 64; i++ {
+				ok = v[i] == 7000+k
+			}
+		case map[string]int:
+			ok = v != nil && len(v) == 1 && v["fresh"] == 7000+k
+		case *zzS:
+			ok = v != nil && v.A == 7000+k && v.B == zzFreshString(k)
+		case zzS:
+			ok = v.A == 7000+k && v.B == zzFreshString(k)
+		case *zzErrA:
+			ok = v != nil && v.c == 7000+k
+		case zzBig:
+			ok = v.A == [5]int{7000 + k, 1, 2, 3, 7000 + k} && v.S == zzFreshString(k) && v.P != nil && *v.P == 7000+k
+		}
+		if ok {
+			return k
+		}
+	}
+	return -1
+}
+
+// zzGC: two collections, then allocation churn in the size classes of the fresh values (scan and noscan), filled with
+// other content and kept until the next zzGC, so that storage freed by the collections is reused.
+func zzGC() {
+	zzChurn = nil
+	runtime.GC()
+	runtime.GC()
+	var keep []interface{}
+	for _, sz := range []int{8, 16, 24, 32, 48, 64, 112, 128, 512, 640} {
+		for i := 0; i < 1500; i++ {
+			b := make([]byte, sz)
+			for j := range b {
+				b[j] = 'B'
+			}
+			keep = append(keep, b)
+		}
+	}
+	for i := 0; i < 1500; i++ {
+		keep = append(keep, &zzS{A: -1, B: "churn"}, &zzBig{S: "churn"}, map[string]int{"churn": i}, &[4]*int{})
+	}
+	zzChurn = keep
+	runtime.GC()
+}
+
 // zzIdent names a value: nil, <type>:<rep>, <type>:? (no pool element is identical), ?:<go type>
 func zzIdent(x interface{}) string {
 	if x == nil {
@@ -97,6 +214,9 @@ func zzIdent(x interface{}) string {
 			return n + ":" + strconv.Itoa(j)
 		}
 	}
+	if k := zzFreshRep(n, x); k >= 0 {
+		return n + ":" + strconv.Itoa(10+k)
+	}
 	return n + ":?"
 }
 
@@ -110,6 +230,9 @@ func zzValue(tok string) (interface{}, bool) {
 	}
 	pool, ok := zzPool[p[0]]
 	j, err := strconv.Atoi(p[1])
+	if ok && err == nil && j >= 10 && j < 14 {
+		return zzFresh(p[0], j-10)
+	}
 	if !ok || err != nil || j < 0 || j >= len(pool) {
 		return nil, false
 	}
@@ -153,6 +276,13 @@ func zzCallback(tok string) (interface{}, bool) {
 		return func() (int, int) { zzCallbackCalls++; return 1, 2 }, true
 	case "panics":
 		return func() int { zzCallbackCalls++; panic("zz-callback-panic") }, true
+	}
+	if strings.HasPrefix(tok, "vret:") { // variadic callback: reflect's Call(nil) accepts it
+		v, ok := zzValue(tok[5:])
+		if !ok {
+			return nil, false
+		}
+		return func(xs ...int) interface{} { zzCallbackCalls++; return v }, true
 	}
 	static := strings.HasPrefix(tok, "ret:")
 	if !static && !strings.HasPrefix(tok, "reti:") {
@@ -250,9 +380,31 @@ func (h *zzHist) step(t []string) (res string) {
 		if t[2] == "p" {
 			m = h.builder(t[1]).Var(v.ptr)
 		} else {
-			m = h.builder(t[1]).UnExportedVar(zzPkgPath + v.sym)
+			name := zzPkgPath + v.sym
+			if v.path != "" {
+				name = v.path
+			}
+			m = h.builder(t[1]).UnExportedVar(name)
 		}
 		h.handles = append(h.handles, m)
+		return "ok"
+	case len(t) == 1 && t[0] == "gc":
+		zzGC()
+		return "ok"
+	case len(t) == 3 && t[0] == "misc":
+		// other kinds of mockers looked up (never applied) in the same builder: Reset walks them too
+		switch t[2] {
+		case "struct":
+			h.builder(t[1]).Struct(&zzErrA{})
+		case "func":
+			h.builder(t[1]).Func(zzF3)
+		case "iface":
+			h.builder(t[1]).Interface(&zzMiscIface)
+		case "exportfunc":
+			h.builder(t[1]).ExportFunc("zzF2")
+		default:
+			return ""
+		}
 		return "ok"
 	case len(t) == 3 && t[0] == "pkg" && (t[2] == "1" || t[2] == "2"):
 		h.builder(t[1]).Pkg("zzpkg/p" + t[2]) // package override pending for the next lookup
@@ -350,7 +502,8 @@ func zzRunHist(toks []string) string {
 // TestVerifC08 runs the operation stream; VERIF_START skips lines already answered by a crashed predecessor.
 func TestVerifC08(t *testing.T) {
 	zzInitTypes()
-	if len(zzDecoys) == 0 {
+	zzInitX()
+	if len(zzDecoys) == 0 || goomx.Decoys() == 0 || goomy.Keep() == 0 {
 		t.Fatal("decoys")
 	}
 	out := vh.OpenOut()
